@@ -179,16 +179,18 @@ theorem exec_add (S : Store) (gid e : String) (g : Group) (ad : List String)
 
 /-- The three branches of `equalizeGroups`' address update — PATCH of the whole expression,
 remove/add of single addresses, nothing — are accepted by the strict store and leave the device
-group with exactly the target's addresses; nothing else changes. -/
-theorem groupCalls_converges (diff : Diff)
+group with exactly the target's addresses; nothing else changes.  `ga` is the group as the
+planner sees it (addresses sorted), `g0` the group on the manager. -/
+theorem groupCalls_converges' (diff : Diff)
     (hdiff : ∀ n m eq, validScript n m eq (diff n m eq) = true)
-    (S : Store) (ga gb : Group) (hfind : findGroup S.groups ga.id = some ga)
+    (S : Store) (ga gb g0 : Group) (hfind : findGroup S.groups ga.id = some g0)
+    (he : g0.exprId = ga.exprId) (hp : g0.addrs.Perm ga.addrs)
     (hna : ga.addrs.Nodup) (hnb : gb.addrs.Nodup) :
     ∃ S' f, run S (groupCalls diff ga gb) = some S' ∧
       S'.policies = S.policies ∧ S'.services = S.services ∧
       S'.groups = setGroupAddrs S.groups ga.id f ∧
       (∀ g, (f g).id = g.id ∧ (f g).exprId = g.exprId) ∧
-      ∀ x, x ∈ (f ga).addrs ↔ x ∈ gb.addrs := by
+      ∀ x, x ∈ (f g0).addrs ↔ x ∈ gb.addrs := by
   unfold groupCalls
   generalize hrs : diff ga.addrs.length gb.addrs.length (fun i j => ga.addrs[i]! == gb.addrs[j]!) = rs
   have hv := hdiff ga.addrs.length gb.addrs.length (fun i j => ga.addrs[i]! == gb.addrs[j]!)
@@ -210,15 +212,15 @@ theorem groupCalls_converges (diff : Diff)
     refine ⟨{ S with groups := setGroupAddrs S.groups ga.id fun g => { g with rtype := gb.rtype, addrs := gb.addrs } },
       fun g => { g with rtype := gb.rtype, addrs := gb.addrs }, ?_, rfl, rfl, rfl, fun _ => ⟨rfl, rfl⟩,
       fun _ => Iff.rfl⟩
-    simp [run, exec, hfind]
+    simp [run, exec, hfind, he]
   · simp only [hpatch, if_false]
     have hkr : (kept ++ rm).Nodup := pa.nodup_iff.mp hna
     have hka : (kept ++ ad).Nodup := pb.nodup_iff.mp hnb
-    have hmemA : ∀ x, x ∈ ga.addrs ↔ x ∈ kept ∨ x ∈ rm := fun x => by rw [pa.mem_iff, List.mem_append]
+    have hmemA : ∀ x, x ∈ g0.addrs ↔ x ∈ kept ∨ x ∈ rm := fun x => by rw [hp.mem_iff, pa.mem_iff, List.mem_append]
     have hmemB : ∀ x, x ∈ gb.addrs ↔ x ∈ kept ∨ x ∈ ad := fun x => by rw [pb.mem_iff, List.mem_append]
     have hdisjR : ∀ x, x ∈ kept → x ∉ rm := fun x h1 h2 => (List.nodup_append.mp hkr).2.2 x h1 x h2 rfl
     have hdisjA : ∀ x, x ∈ kept → x ∉ ad := fun x h1 h2 => (List.nodup_append.mp hka).2.2 x h1 x h2 rfl
-    have hmem1 : ∀ x, x ∈ ga.addrs.filter (!rm.contains ·) ↔ x ∈ kept := by
+    have hmem1 : ∀ x, x ∈ g0.addrs.filter (!rm.contains ·) ↔ x ∈ kept := by
       intro x
       simp only [List.mem_filter, hmemA, List.contains_eq_mem, Bool.not_eq_eq_eq_not, Bool.not_true,
         decide_eq_false_iff_not]
@@ -228,7 +230,7 @@ theorem groupCalls_converges (diff : Diff)
         · exact absurd h hn
       · intro h
         exact ⟨Or.inl h, hdisjR x h⟩
-    have hrmIn : ∀ x ∈ rm, x ∈ ga.addrs := fun x hx => (hmemA x).mpr (Or.inr hx)
+    have hrmIn : ∀ x ∈ rm, x ∈ g0.addrs := fun x hx => (hmemA x).mpr (Or.inr hx)
     let fr : Group → Group := fun g => { g with addrs := g.addrs.filter (!rm.contains ·) }
     let fa : Group → Group := fun g => { g with addrs := g.addrs ++ ad }
     have hfr : ∀ g, (fr g).id = g.id := fun _ => rfl
@@ -240,7 +242,7 @@ theorem groupCalls_converges (diff : Diff)
         intro x
         rw [hmemA, hmemB]
       · have hne : ad.isEmpty = false := by cases ad <;> simp_all
-        have hx := exec_add S ga.id ga.exprId ga ad hfind rfl (by
+        have hx := exec_add S ga.id ga.exprId g0 ad hfind he (by
           intro x hx hx'
           rcases (hmemA x).mp hx' with h | h
           · exact hdisjA x h hx
@@ -250,20 +252,20 @@ theorem groupCalls_converges (diff : Diff)
         intro x
         simp only [fa, List.mem_append, hmemA, hmemB]; simp
     · have hrne : rm.isEmpty = false := by cases rm <;> simp_all
-      have hx1 := exec_remove S ga.id ga.exprId ga rm hfind rfl hrmIn
+      have hx1 := exec_remove S ga.id ga.exprId g0 rm hfind he hrmIn
       by_cases hae : ad = []
       · subst hae
         refine ⟨{ S with groups := setGroupAddrs S.groups ga.id fr }, fr, by simp [run, hrne, hx1, fr], rfl, rfl, rfl,
           fun _ => ⟨rfl, rfl⟩, ?_⟩
         intro x
-        show x ∈ ga.addrs.filter (!rm.contains ·) ↔ _
+        show x ∈ g0.addrs.filter (!rm.contains ·) ↔ _
         rw [hmem1, hmemB]; simp
       · have hne : ad.isEmpty = false := by cases ad <;> simp_all
         let S1 : Store := { S with groups := setGroupAddrs S.groups ga.id fr }
-        have hfind1 : findGroup S1.groups ga.id = some (fr ga) := by
+        have hfind1 : findGroup S1.groups ga.id = some (fr g0) := by
           show findGroup (setGroupAddrs S.groups ga.id fr) ga.id = _
           rw [findGroup_setGroupAddrs _ _ _ hfr, hfind]; rfl
-        have hx2 := exec_add S1 ga.id ga.exprId (fr ga) ad hfind1 rfl (by
+        have hx2 := exec_add S1 ga.id ga.exprId (fr g0) ad hfind1 he (by
           intro x hx hx'
           have : x ∈ kept := (hmem1 x).mp hx'
           exact hdisjA x this hx)
@@ -275,8 +277,19 @@ theorem groupCalls_converges (diff : Diff)
           show some { S1 with groups := setGroupAddrs (setGroupAddrs S.groups ga.id fr) ga.id fa } = _
           rw [setGroupAddrs_comp _ _ _ _ hfr]
         · intro x
-          show x ∈ ga.addrs.filter (!rm.contains ·) ++ ad ↔ _
+          show x ∈ g0.addrs.filter (!rm.contains ·) ++ ad ↔ _
           rw [List.mem_append, hmem1, hmemB]
+
+theorem groupCalls_converges (diff : Diff)
+    (hdiff : ∀ n m eq, validScript n m eq (diff n m eq) = true)
+    (S : Store) (ga gb : Group) (hfind : findGroup S.groups ga.id = some ga)
+    (hna : ga.addrs.Nodup) (hnb : gb.addrs.Nodup) :
+    ∃ S' f, run S (groupCalls diff ga gb) = some S' ∧
+      S'.policies = S.policies ∧ S'.services = S.services ∧
+      S'.groups = setGroupAddrs S.groups ga.id f ∧
+      (∀ g, (f g).id = g.id ∧ (f g).exprId = g.exprId) ∧
+      ∀ x, x ∈ (f ga).addrs ↔ x ∈ gb.addrs :=
+  groupCalls_converges' diff hdiff S ga gb ga hfind rfl (List.Perm.refl _) hna hnb
 
 end NA.Nsx
 
